@@ -196,11 +196,11 @@ def typed_case(case):
     for st in TYPES:
         if defs.get(st):
             reg.add_step_definition(st, TEXT_X, make(st, defs[st]))
-    config = Configuration(["-f", "null"], load_config=False)
     old = sys.stdout, sys.stderr
     sys.stdout, sys.stderr = io.StringIO(), io.StringIO()
     escaped = None
     try:
+        config = Configuration(["-f", "null"], load_config=False)    # the summary reporter binds sys.stdout here
         runner = ModelRunner(config, [feature], step_registry=reg)
         runner.run()
     except BaseException as e:      # noqa
